@@ -9,6 +9,10 @@ NOTE = ('Trusted: the symx facade model of NumPy (every explored path sample is 
 CLAIMED = {
  'C01': dict(text='For every 4-node support family listed in the evidence, every non-zero real weight assignment and every sequence of random draws within the draw budget, the real rewiring/latticising routines are executed symbolically and degree/multiset/diagonal/symmetry/out-strength/edge-list invariants are proved by z3 on every path (and after every accepted swap through the hook).',
              ref='DESIGN.md section 4 C01'),
+ 'C02': dict(text='Optimisers (community_louvain with four objectives, Louvain/finetune/probtune und/dir/signed) run on concrete weight matrices with gamma symbolic in [1/2, 2] and every node visiting order (forked permutation draws; 6-node multi-level graphs with four first-level orders): labels exactly 1..k and |q - Q_definition(returned partition)| <= 1e-9 proved for every gamma on every trajectory; modularity_und/_dir/_und_sign with a given partition on fully symbolic weights.  Spectral mode (LAPACK eig) is not encoded.',
+             ref='DESIGN.md section 4 C02'),
+ 'C07': dict(text='Same explorations as C02 (optimisers only) with the C07 assertions: Q_definition(result) >= Q_definition(start) - 1e-9 for every gamma and visiting order, hierarchy levels strictly increasing, and feeding a 3-node result back never lowers it.',
+             ref='DESIGN.md section 4 C07'),
  'C11': dict(text='Same symbolic explorations as C01 with the C11 assertions: Boolean-closure connectivity of the matrix after every accepted swap and at return (connected / strongly connected 4-node supports, symbolic weights and draws), BCTParamError on every path for disconnected or asymmetric input, lattice cost never increased for a caller-supplied D (symbolic weights with circular D; symbolic D with unit weights), and the symmetric symbolic mask of randomize_graph_partial_und respected.',
              ref='DESIGN.md section 4 C11'),
  'C06': dict(text='randmio_und_signed / randmio_dir_signed run on fully symbolic signed matrices (every off-diagonal entry an unconstrained real, the randint(n**4) draw symbolic): per-node positive/negative in/out degree, signed weight multisets, empty diagonal and symmetry are proved on every path; null_model_*_sign run on enumerated signed matrices with symbolic draws and a recording np.corrcoef stub.',
@@ -36,7 +40,12 @@ CLAIMED = {
  'C20': dict(text='Generators run with every RandomState draw symbolic and K symbolic over its feasible range: shape, 0/1 values, empty diagonal, exact connection count, symmetry, band structure of the ring lattice, reported count of the fractal generator, and in/out degree sequences of makerandCIJdegreesfixed, proved on every explored path.',
              ref='DESIGN.md section 4 C20'),
 }
-NA = {}
+NA = {
+ 'C05': 'not built in the time available: encodable with this engine (two labelled symbolic random streams + reachability of a global draw) but no harness exists; not claimed rather than claimed weakly (DESIGN.md section 8)',
+ 'C14': 'not built in the time available: encodable (two labelings of one partition, weights symbolic) but no harness exists; C02/C04 exercise non-contiguous labels for the evaluators only (DESIGN.md section 8)',
+ 'C18': 'solver-based checking does not apply: mean_first_passage_time, subgraph_centrality and eigenvector_centrality_und are LAPACK eigen-decompositions / inverses in floating point; no contract stub for eig/inv is expressible in the SMT theories available, and the degenerate-eigenspace concern has no counterpart in an exact-real model; findwalks/pagerank alone are a fragment (DESIGN.md section 8)',
+ 'C19': 'solver-based checking does not apply usefully: nbs_bct takes square roots of data and re-draws whole subject relabellings, so data and relabellings must be enumerated and only a threshold stays symbolic (the guidance calls this a weak target); not built (DESIGN.md section 8)',
+}
 def repo_hook_commits():
     try:
         out = subprocess.run(['git', '-C', '/repo', 'log', '--format=%h %s'], capture_output=True, text=True).stdout.splitlines()
